@@ -177,12 +177,12 @@ def run_case(case):
         for key, b in base.items():
             sc = escale if key[0] == "energy" else 1.0
             err = np.abs(got[key] - b).max() / sc
-            if err > tol:
+            if not err <= tol:  # NaN fails
                 return result(False, sig=f"{tr[0]}|{be}|{key[0]}", msg=f"{label}: {key[0]} at t={key[1]} changed by {err:.3e}: base {np.round(b, 6).tolist()} transformed {np.round(got[key], 6).tolist()}", outcome="diff")
         if n <= 3:
             bits, k = explore.exact_bitstring_distribution(lambda: runner.get_at(_observe(s2, be, serialise=tr[0] == "serialise", shots=1), "bitstrings", 1.0))
             transitions += k
             dd = explore.dist_distance(base_bits, bits)
-            if dd > tol:
+            if not dd <= tol:  # NaN fails
                 return result(False, sig=f"{tr[0]}|{be}|bitstrings", msg=f"{label}: exact bitstring distribution changed by {dd:.3e}: base {rnd(base_bits, 5)} transformed {rnd(bits, 5)}", outcome="bits")
     return result(True, outcome=["ok", rnd(base[("occupation", 1.0)], 4), states], states=states, transitions=transitions)
